@@ -8,6 +8,11 @@ mod standalone_read_handle;
 
 pub use standalone::StandaloneEngine;
 pub(crate) use standalone_read_handle::StandaloneReadHandle;
+#[cfg(d_engine_verif)]
+#[doc(hidden)]
+pub use embedded_client::EmbeddedClient as VerifEmbeddedClient;
+#[cfg(d_engine_verif)]
+pub(crate) use embedded_read_handle::EmbeddedReadHandle as VerifEmbeddedReadHandle;
 
 /// Embedded engine generic over any `(SE, SM)` pair.
 pub type EmbeddedEngine<SE, SM> = embedded::EmbeddedEngine<crate::node::RaftTypeConfig<SE, SM>>;
